@@ -558,12 +558,16 @@ impl Message {
                                                 target: Id::from_bytes(arguments.target)?,
                                                 v: arguments.v,
                                                 k,
-                                                seq: arguments.seq.expect(
-                                                    "Put mutable message to have sequence number",
-                                                ),
-                                                sig: arguments.sig.expect(
-                                                    "Put mutable message to have a signature",
-                                                ),
+                                                seq: arguments.seq.ok_or_else(|| {
+                                                    serde_bencode::Error::MissingField(
+                                                        "seq".to_string(),
+                                                    )
+                                                })?,
+                                                sig: arguments.sig.ok_or_else(|| {
+                                                    serde_bencode::Error::MissingField(
+                                                        "sig".to_string(),
+                                                    )
+                                                })?,
                                                 salt: arguments.salt,
                                                 cas: arguments.cas,
                                             },
